@@ -196,7 +196,7 @@ def body(c):
     if c.replay:
         return replay(c)
     rng = random.Random(c.seed)
-    tail_m = "INIT Init\nNEXT Next\n" + "".join("INVARIANT %s\n" % x for x in CLAUSES)
+    tail_m = "INIT Init\nNEXT Next\nVIEW MView\n" + "".join("INVARIANT %s\n" % x for x in CLAUSES)
     # ---- M: the protocol as written satisfies the clauses -------------------------------------------
     if c.quick:
         # keep-alive configured subsumes not configured in the model (the only difference is that KeepAliveExpires may happen)
@@ -230,7 +230,7 @@ def body(c):
         if lv.invariant_violated:
             raise vlib.ToolError("design-level failure: liveness property Drains violated: " + str(lv.invariant_violated))
         c.add_tlc("M liveness: an open server eventually reads every client message (weak fairness of poll_next and callbacks)", lv)
-        tail = "INIT Init\nNEXT Next\nINVARIANT OnlyNamedDeviations\nINVARIANT MonitorInSync\n"
+        tail = "INIT Init\nNEXT Next\nVIEW MView\nINVARIANT OnlyNamedDeviations\nINVARIANT MonitorInSync\n"
         cfg = write_cfg(c.path("M_today.cfg"), ["GWS", "STWS"], [True], ["a", "b"], 2, 4, 2, ALL_DEV, tail)
         r = vlib.run_tlc("conc/WebSocket.tla", cfg, workers=8, timeout=2400, xmx="8g")
         if r.invariant_violated:
